@@ -542,7 +542,7 @@ Proof.
   unfold orbit_ok, orbit_click. rewrite Nat.eqb_eq, app_length, repeat_length. lia.
 Qed.
 
-Lemma orbit_refuted : exists orbit modes, fold_right plus O orbit = 4%nat /\ orbit_ok orbit modes = false.
+Lemma orbit_refuted : exists orbit modes, fold_right Nat.add O orbit = 4%nat /\ orbit_ok orbit modes = false.
 Proof. exists [1;1;1;1]%nat, 3%nat. split; reflexivity. Qed.
 
 Lemma existsb_negb_forallb z : existsb negb z = negb (forallb (fun b => b) z).
@@ -555,9 +555,25 @@ Lemma sample_len_iff z : z <> [] ->
 Proof.
   intros Hz. assert (0 < length z)%nat by (destruct z; [congruence|simpl; lia]).
   unfold sample_len. rewrite existsb_negb_forallb, existsb_id_forallb.
-  destruct (forallb (fun b => b) z) eqn:E1, (forallb negb z) eqn:E2; simpl; split; intros; auto; try lia.
-  - destruct H0; discriminate.
+  destruct (forallb (fun b => b) z) eqn:E1, (forallb negb z) eqn:E2; simpl; split; intros; auto; try lia;
+    try (exfalso; destruct z as [|[|] z']; simpl in *; congruence);
+    try (match goal with H : _ \/ _ |- _ => destruct H; discriminate end).
 Qed.
 
 Lemma sample_len_refuted : exists z, sample_len z <> (2 * length z)%nat.
 Proof. exists [true; false]. vm_compute. discriminate. Qed.
+
+Lemma te_thetas_group hundred c femto twopi w t1 t2 :
+  te_thetas RO hundred c femto twopi w (t1 + t2)
+  = map2 Rplus (te_thetas RO hundred c femto twopi w t1) (te_thetas RO hundred c femto twopi w t2)
+  /\ te_thetas RO hundred c femto twopi w 0 = map (fun _ => 0) w.
+Proof. split; [apply te_thetas_add | apply te_thetas_zero]. Qed.
+
+(* the side condition of score_product is inhabited *)
+Lemma ex_product_hyp : forall k, (k < length [[1; 0]; [0; 1]])%nat ->
+  (nth k (weightsR [[1; 0]; [0; 1]] [0; 0]) 0 * nth k [/ 2; / 3] 0) * (nth k (weightsR [[1; 0]; [0; 1]] [0; 0]) 0 * nth k [/ 2; / 3] 0) < 1.
+Proof.
+  intros k Hk. destruct k as [|[|k]]; simpl in Hk; try lia.
+  - unfold weightsR, exp_args, dot, map2; simpl. replace (- (1 * 0 + (0 * 0 + 0))) with 0 by ring. rewrite exp_0. lra.
+  - unfold weightsR, exp_args, dot, map2; simpl. replace (- (0 * 0 + (1 * 0 + 0))) with 0 by ring. rewrite exp_0. lra.
+Qed.
